@@ -271,8 +271,7 @@ Qed.
 Record Inv_inf (s : inf_st) : Prop := {
   iinf_params : inf_valid (is_par s) = true;
   iinf_epp : 0 < is_epp s;
-  iinf_ident : 0 <= is_ident s;                             (* the configured identifier is not blank *)
-  iinf_guard : InflationProofs.calc_guard (exp_of (is_par s))  (* the provision formula stays inside LegacyDec *)
+  iinf_ident : 0 <= is_ident s                              (* the configured identifier is not blank *)
 }.
 
 Definition ctx_ok (c : ictx) : Prop := 0 <= ic_bonded c /\ 0 <= ic_height c.
@@ -280,7 +279,25 @@ Definition ctx_ok (c : ictx) : Prop := 0 <= ic_bonded c /\ 0 <= ic_height c.
 Lemma inf_valid_exp p : inf_valid p = true -> InflationProofs.ValidExp (exp_of p).
 Proof.
   unfold inf_valid, inf_validate. intros H. apply andb_prop in H as [H _]. apply andb_prop in H as [_ H].
+  unfold inf_v_exp in H. apply andb_prop in H as [H _].
   apply InflationProofs.valid_exp_spec. exact H.
+Qed.
+
+(* validated parameters: the worst-case evaluation of the provision goes through (provisionComputable) *)
+Lemma inf_valid_worst p : inf_valid p = true -> exists v0, Inflation.calc_provision (exp_of p) 0%N 1 0 = Some v0.
+Proof.
+  unfold inf_valid, inf_validate. intros H. apply andb_prop in H as [H _]. apply andb_prop in H as [_ H].
+  unfold inf_v_exp in H. apply andb_prop in H as [_ H]. unfold inf_computable in H. fold (exp_of p) in H.
+  destruct (Inflation.calc_provision (exp_of p) 0%N 1 0) as [v0|]; [eauto|discriminate].
+Qed.
+
+(* hence the provision can be computed for every period, epochs per period >= 1 and bonded ratio >= 0 *)
+Lemma inf_valid_no_panic p x epp bonded :
+  inf_valid p = true -> 0 < epp -> 0 <= bonded ->
+  Inflation.calc_provision (exp_of p) x epp bonded = Some (InflationProofs.pure_calc (exp_of p) x epp bonded).
+Proof.
+  intros V He Hb. destruct (inf_valid_worst p V) as (v0 & E0).
+  exact (InflationProofs.calc_worst_case _ _ (inf_valid_exp _ V) E0 x epp bonded He Hb).
 Qed.
 
 Definition prov_after (c : ictx) (s : inf_st) : Z :=
@@ -293,14 +310,14 @@ Proof. intros V. rewrite AuthorityProofs.inf_set_spec. unfold inf_valid in V. re
 
 Lemma import_inf_export c s : ctx_ok c -> Inv_inf s -> import_inf c (export_inf s) = Some (inf_after c s).
 Proof.
-  intros [Hb _] [HP He Hi HG]. unfold import_inf, export_inf. cbn [ig_params ig_period ig_ident ig_epp ig_skipped].
+  intros [Hb _] [HP He Hi]. unfold import_inf, export_inf. cbn [ig_params ig_period ig_ident ig_epp ig_skipped].
   rewrite (inf_set_ok _ HP). cbn [SdkInt.obind].
-  rewrite (InflationProofs.calc_no_panic _ _ _ _ (inf_valid_exp _ HP) HG He Hb). reflexivity.
+  rewrite (inf_valid_no_panic _ _ _ _ HP He Hb). reflexivity.
 Qed.
 
 Lemma export_inf_valid s : Inv_inf s -> validate_inf (export_inf s) = true.
 Proof.
-  intros [HP He Hi HG]. unfold validate_inf, export_inf, id_blank. cbn [ig_params ig_ident ig_epp].
+  intros [HP He Hi]. unfold validate_inf, export_inf, id_blank. cbn [ig_params ig_ident ig_epp].
   unfold inf_valid in HP. rewrite HP.
   assert (A : (is_ident s <? 0) = false) by (apply Z.ltb_ge; lia).
   assert (B : (0 <? is_epp s) = true) by (apply Z.ltb_lt; lia).
@@ -500,7 +517,7 @@ Proof.
   - apply cs_after_inv. exact H1.
   - exact H2.
   - apply csr_after_inv. exact H3.
-  - destruct H4 as [A B C D]. split; assumption.
+  - destruct H4 as [A B C]. split; assumption.
   - destruct H5 as [HS HE]. split.
     + unfold ep_after. clear HE. revert HS. generalize (-1). induction (s_ep s) as [|e r IH]; intros lo HS; cbn [map ids_sorted] in *; [exact I|].
       destruct HS as [A B]. split; [exact A|]. apply IH. exact B.
@@ -552,8 +569,7 @@ Proof.
       destruct (Z.eqb_spec n 4); destruct (Z.eqb_spec n 1); split; intros H;
         try discriminate; try (right; left; lia); try (left; lia); try (exfalso; apply H; reflexivity).
       destruct H as [H|[H|[]]]; lia.
-  - split; cbn [ex_inf_st is_par is_epp is_ident]; [vm_compute; reflexivity|lia|lia|].
-    split; vm_compute; reflexivity.
+  - split; cbn [ex_inf_st is_par is_epp is_ident]; [vm_compute; reflexivity|lia|lia].
   - split; cbn [ex_ep_st ids_sorted e_id]; [lia|].
     repeat constructor; cbn; try lia; unfold zero_time; lia.
   - reflexivity.
@@ -665,7 +681,6 @@ Record WInv (w : world) : Prop := {
   wi_wf : CoinswapEffects.WF (w_coin w);
   wi_seq : GenesisCoinswap.seq_exact (w_coin w);
   wi_par : chain_valid (w_par w) = true;
-  wi_guard : InflationProofs.calc_guard (exp_of (c_inf (w_par w)));
   wi_erc : TokenPairsProofs.Inv (w_erc w);
   wi_csr : CsrProofs.csr_inv (Csr.reg (w_csr w));
   wi_dom_nd : List.NoDup (w_dom w);
@@ -679,7 +694,6 @@ Record WInv (w : world) : Prop := {
 Definition op_ok (w : world) (o : wop) : Prop :=
   match o with
   | WErc20 x => TokenPairsProofs.fresh_ok (w_erc w) x        (* the EVM gives a fresh address to a new contract *)
-  | WParams (UpdInflation _ _ p) => InflationProofs.calc_guard (exp_of p)   (* no absurd decay parameters *)
   | WBlock _ h _ => 0 <= h
   | WCsrTx t =>                                                (* ids stored by a receipt are ids of its Register events *)
       forall n, Csr.csrs (Csr.reg (Csr.deliver t (w_csr w))) n <> None ->
@@ -742,7 +756,7 @@ Qed.
 
 Theorem abs_inv w : WInv w -> Inv (abs w).
 Proof.
-  intros [WF SX VP G HE HC ND HD He Hi HP].
+  intros [WF SX VP HE HC ND HD He Hi HP].
   pose proof VP as VP'. unfold chain_valid in VP'.
   apply andb_prop in VP' as [VP' Verc]. apply andb_prop in VP' as [VP' Vonb].
   apply andb_prop in VP' as [VP' Vcsr]. apply andb_prop in VP' as [Vcs Vinf].
@@ -835,14 +849,13 @@ Variable day : Z.
 
 Theorem wstep_inv o w : WInv w -> op_ok w o -> WInv (wstep gov day o w).
 Proof.
-  intros [WF SX VP G HE HC ND HD He Hi HP] OK.
+  intros [WF SX VP HE HC ND HD He Hi HP] OK.
   destruct o as [now x|x|x|t|t h orc|a]; cbn [wstep op_ok] in *.
   - split; cbn [w_coin w_par w_erc w_csr w_dom w_inf w_ep]; try assumption.
     + apply CoinswapWF.deliver_WF. exact WF.
     + eapply GenesisCoinswap.meta_step_seq; [exact SX|apply GenesisCoinswap.deliver_meta; exact WF].
   - split; cbn [w_coin w_par w_erc w_csr w_dom w_inf w_ep]; try assumption.
-    + apply AuthorityProofs.step_valid. exact VP.
-    + destruct (step_c_inf gov x (w_par w)) as [E|(a & n & p & -> & E)]; rewrite E; [exact G|exact OK].
+    apply AuthorityProofs.step_valid. exact VP.
   - split; cbn [w_coin w_par w_erc w_csr w_dom w_inf w_ep]; try assumption.
     apply TokenPairsProofs.step_inv; assumption.
   - split; cbn [w_coin w_par w_erc w_csr w_dom w_inf w_ep]; try assumption.
@@ -883,7 +896,7 @@ Qed.
        export passes validation, imports, re-exports to the same documents and answers the same.
        [_partial]: the clause of [op_ok] for CSR transactions (the ids a receipt stores are ids of its
        Register events) is a fact about Model/Csr.v that is assumed here, not derived; the other clauses
-       are external facts (fresh contract addresses, decay parameters inside LegacyDec, block height >= 0). *)
+       are external facts (fresh contract addresses, block height >= 0). *)
 Theorem history_partial c os w :
   ctx_ok c -> WInv w -> hist_ok gov day w os ->
   let s := abs (wrun gov day os w) in
@@ -919,7 +932,6 @@ Proof.
   - exact CoinswapWF.ex_state_WF.
   - exact GenesisCoinswap.ex_seq_exact.
   - vm_compute. reflexivity.
-  - split; vm_compute; reflexivity.
   - apply TokenPairsProofs.ex_inv.
   - exact ex_csr_reg_inv.
   - repeat constructor; cbn; intuition lia.
@@ -941,24 +953,28 @@ Example ex_history_content :
   map e_height (w_ep (wrun ex_gov 0 ex_ops ex_world)) = [9; 9].
 Proof. vm_compute. repeat split; reflexivity. Qed.
 
-(** * Without the overflow guard the import can panic
+(** * Every validated inflation genesis can be imported
 
-    [iinf_guard] cannot be dropped from the invariant: parameters that every validator accepts
-    (A = 2^314 raw, MaxVariance = 3) make CalculateEpochMintProvision overflow LegacyDec, so
-    InitGenesis of x/inflation panics on the chain's own export.  CONFIRMED on the real code by the
-    harness stream "guard-overflow-params" (harness/c18_guard.go): MsgUpdateParams with the gov
-    authority accepts and stores such values, the module's ValidateGenesis accepts the export,
-    InitChain from the export panics ("Int overflow"), and the running chain panics the same way in
-    BeginBlocker at the next period boundary.  Recorded as a known finding (monitor
-    export-of-reachable-state-not-importable, corpus/C18-export-not-importable-overflowing-inflation-params.json). *)
-Definition ex_huge_inf : inf_st :=
-  mkInfSt (mkInf [97; 99; 97; 110; 116; 111] (2 ^ 314) 0 0 (8 * 10 ^ 17) (3 * 10 ^ 18) (10 ^ 18) 0 true) 0 0 30 0 0.
-
-Theorem import_without_guard_refuted :
-  exists c s, ctx_ok c /\ inf_valid (is_par s) = true /\ 0 < is_epp s /\ 0 <= is_ident s /\
-              validate_inf (export_inf s) = true /\ import_inf c (export_inf s) = None.
+    Before the repair of the C18 finding (x/inflation/types/params.go validateExponentialCalculation
+    had only range checks) parameters such as A = 2^314 (raw) with MaxVariance = 3 were accepted,
+    CalculateEpochMintProvision overflowed LegacyDec on them and InitGenesis panicked on the chain's
+    own export (harness stream "guard-overflow-params", corpus/C18-export-not-importable-overflowing-
+    inflation-params.json).  The validator now evaluates the worst case of the provision; the model
+    mirrors it ([inf_computable] in Model/Authority.v) and the statement below holds without any
+    overflow guard: whatever passes the module's ValidateGenesis is imported without a panic. *)
+Theorem import_defined_for_valid_params c g :
+  0 <= ic_bonded c -> validate_inf g = true -> exists s, import_inf c g = Some s.
 Proof.
-  exists (mkICtx 1 0 0), ex_huge_inf. split; [split; cbn; lia|].
-  split; [vm_compute; reflexivity|]. split; [cbn; lia|]. split; [cbn; lia|].
-  split; vm_compute; reflexivity.
+  intros Hb V. unfold validate_inf in V.
+  apply andb_prop in V as [V VP]. apply andb_prop in V as [_ Ve]. apply Z.ltb_lt in Ve.
+  unfold import_inf. rewrite (inf_set_ok _ VP). cbn [SdkInt.obind].
+  rewrite (inf_valid_no_panic _ _ _ _ VP Ve Hb). eauto.
 Qed.
+
+(* the overflowing values of the finding are rejected by the repaired validator *)
+Example overflowing_params_rejected :
+  inf_valid (mkInf [97; 99; 97; 110; 116; 111] (2 ^ 314) 0 0 (8 * 10 ^ 17) (3 * 10 ^ 18) (10 ^ 18) 0 true) = false /\
+  inf_valid (mkInf [97; 99; 97; 110; 116; 111] (10 ^ 80) (35 * 10 ^ 16) 0 (8 * 10 ^ 17) 0 (10 ^ 18) 0 true) = false /\
+  inf_valid (mkInf [97; 99; 97; 110; 116; 111] (10 ^ 48) (35 * 10 ^ 16) (10 ^ 18) (8 * 10 ^ 17) (10 ^ 58) (10 ^ 18) 0 true) = false /\
+  inf_valid AuthorityProofs.ex_inf = true.
+Proof. vm_compute. repeat split; reflexivity. Qed.
